@@ -108,6 +108,101 @@ def aimp (A : ACtx) (ρ : AEnv) (t : Target) : Expr → Bool
     else false
   | _ => false
 
+/-! ### facts about the elements of a list variable
+
+`(L, i, false)`: if the list held by variable `L` has an element at index `i`, that element is clean;
+`(L, i, true)`: every element of `L` at an index `≥ i` is clean (so `len(L) ≤ i` is such a fact).
+A condition that compares `len(L)` with a constant, applies an accepted handler or regexp to `L[i]`,
+or passes `L`, `L[k:]` or `[]string{L[i]}` to `in` / `recursiveCheck`, yields facts when it is true
+and when it is false. -/
+
+abbrev Fact := String × Nat × Bool
+abbrev Facts := List Fact
+
+def Fact.implied (F : Facts) (f : Fact) : Bool :=
+  F.any fun g => g.1 == f.1 && (if f.2.2 then g.2.2 && decide (g.2.1 ≤ f.2.1)
+    else (!g.2.2 && g.2.1 == f.2.1) || (g.2.2 && decide (g.2.1 ≤ f.2.1)))
+
+/-- the facts that hold when either set holds -/
+def Facts.inter (F G : Facts) : Facts := F.filter (Fact.implied G) ++ G.filter (Fact.implied F)
+
+/-- every element of `L` is vouched for -/
+def coversAll (F : Facts) (L : String) : Bool :=
+  F.any fun g => g.1 == L && g.2.2 && (List.range g.2.1).all fun i => Fact.implied F (L, i, false)
+
+/-- some list variable that covers target `t` has all its elements vouched for -/
+def covered (F : Facts) (ρ : AEnv) (t : Target) : Bool :=
+  F.any fun g => ρ g.1 == .covL t && coversAll F g.1
+
+/-- `L` ↦ `(L, 0)`, `L[k:]` ↦ `(L, k)` -/
+def listRef : Expr → Option (String × Nat)
+  | .var L => some (L, 0)
+  | .sliceFrom (.var L) (.int k) => if k < 0 then none else some (L, k.toNat)
+  | _ => none
+
+/-- `L[i]` ↦ `(L, i)` -/
+def elemRef : Expr → Option (String × Nat)
+  | .index (.var L) (.int i) => if i < 0 then none else some (L, i.toNat)
+  | _ => none
+
+/-- what a list argument of `in` / `recursiveCheck` vouches for when the call is true -/
+def listArgFacts : Expr → Facts
+  | .strs [e] => match elemRef e with
+    | some (L, i) => [(L, i, false)]
+    | none => []
+  | e => match listRef e with
+    | some (L, k) => [(L, k, true)]
+    | none => []
+
+/-- `len(L) op n` with the given truth value bounds the length: `len(L) ≤ k` -/
+def lenBound (op : String) (n : Int) (pol : Bool) : Option Int :=
+  if pol then
+    (if op == "<" then some (n - 1) else if op == "<=" then some n else if op == "==" then some n else none)
+  else
+    (if op == ">" then some n else if op == ">=" then some (n - 1) else if op == "!=" then some n else none)
+
+def isListAV : AV → Bool
+  | .covL _ => true
+  | .cleanL => true
+  | _ => false
+
+def lenFacts (ρ : AEnv) (op : String) (a b : Expr) (pol : Bool) : Facts :=
+  match a, b with
+  | .call f [.var L], .int n =>
+    if f == "len" && isListAV (ρ L) then
+      match lenBound op n pol with
+      | some k => [(L, k.toNat, true)]
+      | none => []
+    else []
+  | _, _ => []
+
+/-- the facts that hold when `e` evaluates to `pol` -/
+def facts (A : ACtx) (ρ : AEnv) : Bool → Expr → Facts
+  | pol, .not e => facts A ρ (!pol) e
+  | pol, .bin op a b =>
+    if op == "&&" then
+      (if pol then facts A ρ true a ++ facts A ρ true b else Facts.inter (facts A ρ false a) (facts A ρ false b))
+    else if op == "||" then
+      (if pol then Facts.inter (facts A ρ true a) (facts A ρ true b) else facts A ρ false a ++ facts A ρ false b)
+    else lenFacts ρ op a b pol
+  | true, .handler f a =>
+    if A.closedFns.contains f then
+      match elemRef a with
+      | some (L, i) => [(L, i, false)]
+      | none => []
+    else []
+  | true, .reMatch r a =>
+    if A.closedRes.contains r then
+      match elemRef a with
+      | some (L, i) => [(L, i, false)]
+      | none => []
+    else []
+  | true, .call f [a, b] =>
+    if f == "in" then (if aeval A ρ b == .cleanL then listArgFacts a else [])
+    else if f == "recursiveCheck" then (if aeval A ρ b == .funcs then listArgFacts a else [])
+    else []
+  | _, _ => []
+
 /-- a statement list that cannot be left through its end -/
 def noFall (l : List Stmt) : Bool :=
   match l.getLast? with
@@ -152,25 +247,26 @@ def assignedIn : Nat → List Stmt → Option (List String)
     path; `estX`: so is the current loop element; `inLoop`: the list is inside a loop body, so a
     `continue` must have established `estX`; `endsBody`: the end of the list is the end of the loop
     body, so reaching it must have established `estX` as well. -/
-def acheck (A : ACtx) : Nat → Bool → Bool → Bool → Bool → AEnv → List Stmt → Bool
-  | 0, _, _, _, _, _, _ => false
-  | _, _, estX, _, endsBody, _, [] => !endsBody || estX
-  | fuel + 1, est, estX, inLoop, endsBody, ρ, s :: rest =>
+def acheck (A : ACtx) : Nat → Bool → Bool → Bool → Bool → AEnv → Facts → List Stmt → Bool
+  | 0, _, _, _, _, _, _, _ => false
+  | _, _, estX, _, endsBody, ρ, Φ, [] => !endsBody || estX || covered Φ ρ .elem
+  | fuel + 1, est, estX, inLoop, endsBody, ρ, Φ, s :: rest =>
     match s with
-    | .assign n e => acheck A fuel est estX inLoop endsBody (ρ.set n (aeval A ρ e)) rest
-    | .ret e => est || aimp A ρ .param e
+    | .assign n e =>
+      acheck A fuel est estX inLoop endsBody (ρ.set n (aeval A ρ e)) (Φ.filter fun g => g.1 != n) rest
+    | .ret e => est || aimp A ρ .param e || covered (Φ ++ facts A ρ true e) ρ .param
     | .brk => false
-    | .cont => inLoop && estX
+    | .cont => inLoop && (estX || covered Φ ρ .elem)
     | .ifS c thn els =>
-      acheck A fuel (est || aimp A ρ .param c) (estX || aimp A ρ .elem c) inLoop false ρ thn &&
-      acheck A fuel est estX inLoop false ρ els &&
+      acheck A fuel (est || aimp A ρ .param c) (estX || aimp A ρ .elem c) inLoop false ρ (Φ ++ facts A ρ true c) thn &&
+      acheck A fuel est estX inLoop false ρ (Φ ++ facts A ρ false c) els &&
       (if noFall thn && els.isEmpty then
          -- the rest is reached only when `c` was false
          let neg : Target → Bool := fun t => match c with
            | .not c' => aimp A ρ t c'
            | _ => false
-         acheck A fuel (est || neg .param) (estX || neg .elem) inLoop endsBody ρ rest
-       else acheck A fuel est estX inLoop endsBody forget rest)
+         acheck A fuel (est || neg .param) (estX || neg .elem) inLoop endsBody ρ (Φ ++ facts A ρ false c) rest
+       else acheck A fuel est estX inLoop endsBody forget [] rest)
     | .forRange v e body =>
       !inLoop && !endsBody &&
       (match aeval A ρ e with
@@ -180,8 +276,8 @@ def acheck (A : ACtx) : Nat → Bool → Bool → Bool → Bool → AEnv → Lis
          (match assignedIn fuel body with
           | none => false
           | some ns =>
-            acheck A fuel est false true true ((dropElem (havoc ρ (v :: ns))).set v (.covS .elem)) body &&
-            acheck A fuel true false false false forget rest)
+            acheck A fuel est false true true ((dropElem (havoc ρ (v :: ns))).set v (.covS .elem)) [] body &&
+            acheck A fuel true false false false forget [] rest)
        | _ => false)
 
 /-! ### environments -/
@@ -993,6 +1089,531 @@ theorem noFall_not_next (c : Ctx) : ∀ (k : Nat) (l : List Stmt) (env env' : En
             exact hno env' h
         · cases h
 
+/-! ### soundness of the facts -/
+
+def FactSem (env : Env) (f : Fact) : Prop :=
+  ∃ l, env.get? f.1 = some (.strs l) ∧
+    if f.2.2 = true then ∀ j s, f.2.1 ≤ j → l[j]? = some s → Clean s else ∀ s, l[f.2.1]? = some s → Clean s
+
+def FactsHold (env : Env) (F : Facts) : Prop := ∀ f ∈ F, FactSem env f
+
+theorem FactsHold.nil (env : Env) : FactsHold env [] := fun _ h => by cases h
+
+theorem FactsHold.append {env : Env} {F G : Facts} (hF : FactsHold env F) (hG : FactsHold env G) :
+    FactsHold env (F ++ G) := by
+  intro f hf
+  rcases List.mem_append.mp hf with h | h
+  · exact hF f h
+  · exact hG f h
+
+theorem implied_sound {env : Env} {F : Facts} (h : FactsHold env F) (f : Fact) (hi : Fact.implied F f = true) :
+    FactSem env f := by
+  unfold Fact.implied at hi
+  obtain ⟨g, hg, hc⟩ := List.any_eq_true.mp hi
+  simp only [Bool.and_eq_true, beq_iff_eq] at hc
+  obtain ⟨hname, hc⟩ := hc
+  obtain ⟨l, hl, hsem⟩ := h g hg
+  refine ⟨l, by rw [← hname]; exact hl, ?_⟩
+  by_cases hf : f.2.2 = true
+  · simp only [hf, ↓reduceIte, Bool.and_eq_true, decide_eq_true_eq] at hc ⊢
+    simp only [hc.1, ↓reduceIte] at hsem
+    intro j s hj hs
+    exact hsem j s (Nat.le_trans hc.2 hj) hs
+  · have hf' : f.2.2 = false := by simpa using hf
+    simp only [hf', Bool.false_eq_true, ↓reduceIte, Bool.or_eq_true, Bool.and_eq_true, Bool.not_eq_true',
+      beq_iff_eq, decide_eq_true_eq] at hc ⊢
+    intro s hs
+    rcases hc with ⟨hg2, hidx⟩ | ⟨hg2, hle⟩
+    · simp only [hg2, Bool.false_eq_true, ↓reduceIte] at hsem
+      rw [hidx] at hsem
+      exact hsem s hs
+    · simp only [hg2, ↓reduceIte] at hsem
+      exact hsem _ s hle hs
+
+theorem inter_sound {env : Env} {F G : Facts} (h : FactsHold env F ∨ FactsHold env G) :
+    FactsHold env (Facts.inter F G) := by
+  intro f hf
+  unfold Facts.inter at hf
+  rcases List.mem_append.mp hf with hf | hf
+  · obtain ⟨hm, hi⟩ := List.mem_filter.mp hf
+    rcases h with h | h
+    · exact h f hm
+    · exact implied_sound h f hi
+  · obtain ⟨hm, hi⟩ := List.mem_filter.mp hf
+    rcases h with h | h
+    · exact implied_sound h f hi
+    · exact h f hm
+
+theorem coversAll_sound {env : Env} {F : Facts} (h : FactsHold env F) (L : String) (hc : coversAll F L = true) :
+    ∃ l, env.get? L = some (.strs l) ∧ CleanL l := by
+  unfold coversAll at hc
+  obtain ⟨g, hg, hc⟩ := List.any_eq_true.mp hc
+  simp only [Bool.and_eq_true, beq_iff_eq, List.all_eq_true, List.mem_range] at hc
+  obtain ⟨⟨hname, hfrom⟩, hidx⟩ := hc
+  obtain ⟨l, hl, hsem⟩ := h g hg
+  simp only [hfrom, ↓reduceIte] at hsem
+  rw [hname] at hl
+  refine ⟨l, hl, ?_⟩
+  intro s hs
+  obtain ⟨j, hj⟩ := List.mem_iff_getElem?.mp hs
+  by_cases hlt : j < g.2.1
+  · obtain ⟨l', hl', hsem'⟩ := implied_sound h (L, j, false) (hidx j hlt)
+    simp only at hl' hsem'
+    rw [hl] at hl'
+    simp only [Option.some.injEq, Val.strs.injEq] at hl'
+    subst hl'
+    simp only [Bool.false_eq_true, ↓reduceIte] at hsem'
+    exact hsem' s hj
+  · exact hsem j s (by omega) hj
+
+theorem covered_sound {A : ACtx} {tv : Targets} {ρ : AEnv} {env : Env} {F : Facts} (h : FactsHold env F)
+    (hR : Rel A tv ρ env) (t : Target) (hc : covered F ρ t = true) : Clean (tv.get t) := by
+  unfold covered at hc
+  obtain ⟨g, _, hc⟩ := List.any_eq_true.mp hc
+  simp only [Bool.and_eq_true, beq_iff_eq] at hc
+  obtain ⟨l, hl, hcl⟩ := coversAll_sound h g.1 hc.2
+  have := hR g.1 _ hl
+  rw [hc.1] at this
+  obtain ⟨l', hl', hcov⟩ := this
+  cases hl'
+  exact hcov hcl
+
+theorem FactsHold.set {env : Env} {F : Facts} (h : FactsHold env F) (n : String) (v : Val) :
+    FactsHold (env.set n v) (F.filter fun g => g.1 != n) := by
+  intro f hf
+  obtain ⟨hm, hne⟩ := List.mem_filter.mp hf
+  obtain ⟨l, hl, hsem⟩ := h f hm
+  refine ⟨l, ?_, hsem⟩
+  rw [Env.get?_set]
+  have : (f.1 == n) = false := by simpa using hne
+  simp only [this, Bool.false_eq_true, ↓reduceIte]
+  exact hl
+
+theorem evalE_int (c : Ctx) (k : Nat) (env : Env) (n : Int) (v : Val) (h : evalE c k env (.int n) = some v) :
+    v = .int n := by
+  cases k with
+  | zero => rw [evalE_zero] at h; cases h
+  | succ k => rw [evalE] at h; simp only [Option.some.injEq] at h; exact h.symm
+
+/-- evaluating `L[i]` -/
+theorem evalE_elemRef (c : Ctx) (env : Env) (a : Expr) (L : String) (i : Nat) (h : elemRef a = some (L, i))
+    (k : Nat) (v : Val) (hv : evalE c k env a = some v) :
+    ∃ l s, env.get? L = some (.strs l) ∧ l[i]? = some s ∧ v = .str s := by
+  unfold elemRef at h
+  split at h
+  · rename_i L' i'
+    split at h
+    · cases h
+    · rename_i hneg
+      simp only [Option.some.injEq, Prod.mk.injEq] at h
+      obtain ⟨rfl, rfl⟩ := h
+      cases k with
+      | zero => rw [evalE_zero] at hv; cases hv
+      | succ k =>
+        rw [evalE] at hv
+        split at hv
+        · rename_i l kk h1 h2
+          have := evalE_int c k env i' _ h2
+          simp only [Val.int.injEq] at this
+          subst this
+          simp only [hneg, ↓reduceIte] at hv
+          have hget := evalE_var c k env L' _ h1
+          cases hidx : l[kk.toNat]? with
+          | none => rw [hidx] at hv; simp at hv
+          | some s =>
+            rw [hidx] at hv
+            simp only [Option.map_some, Option.some.injEq] at hv
+            exact ⟨l, s, hget, hidx, hv.symm⟩
+        · cases hv
+  · cases h
+
+/-- evaluating `L` or `L[k:]` to a list -/
+theorem evalE_listRef (c : Ctx) (env : Env) (a : Expr) (L : String) (k0 : Nat) (h : listRef a = some (L, k0))
+    (k : Nat) (la : List Bytes) (hv : evalE c k env a = some (.strs la)) :
+    ∃ l, env.get? L = some (.strs l) ∧ la = l.drop k0 := by
+  unfold listRef at h
+  split at h
+  · rename_i L'
+    simp only [Option.some.injEq, Prod.mk.injEq] at h
+    obtain ⟨rfl, rfl⟩ := h
+    exact ⟨la, evalE_var c k env _ _ hv, by simp⟩
+  · rename_i L' k'
+    split at h
+    · cases h
+    · rename_i hneg
+      simp only [Option.some.injEq, Prod.mk.injEq] at h
+      obtain ⟨rfl, rfl⟩ := h
+      cases k with
+      | zero => rw [evalE_zero] at hv; cases hv
+      | succ k =>
+        rw [evalE] at hv
+        split at hv
+        · rename_i l kk h1 h2
+          have := evalE_int c k env k' _ h2
+          simp only [Val.int.injEq] at this
+          subst this
+          have hget := evalE_var c k env L' _ h1
+          split at hv
+          · cases hv
+          · simp only [Option.some.injEq, Val.strs.injEq] at hv
+            exact ⟨l, hget, hv.symm⟩
+        · cases hv
+  · cases h
+
+/-- a list that is clean vouches, as an argument of `in` / `recursiveCheck`, for what `listArgFacts` says -/
+theorem listArgFacts_sound (c : Ctx) (env : Env) (a : Expr) (k : Nat) (la : List Bytes)
+    (hv : evalE c k env a = some (.strs la)) (hcl : CleanL la) : FactsHold env (listArgFacts a) := by
+  have hgen : ∀ L k0, listRef a = some (L, k0) → FactsHold env [(L, k0, true)] := by
+    intro L k0 href f hf
+    simp only [List.mem_singleton] at hf
+    subst hf
+    obtain ⟨l, hl, hdrop⟩ := evalE_listRef c env a L k0 href k la hv
+    refine ⟨l, hl, ?_⟩
+    simp only [↓reduceIte]
+    intro j s hj hs
+    apply hcl s
+    rw [hdrop]
+    apply List.mem_iff_getElem?.mpr
+    refine ⟨j - k0, ?_⟩
+    rw [List.getElem?_drop]
+    have : k0 + (j - k0) = j := by omega
+    rw [this]; exact hs
+  unfold listArgFacts
+  split
+  · rename_i e
+    split
+    · rename_i L i href
+      intro f hf
+      simp only [List.mem_singleton] at hf
+      subst hf
+      -- `[]string{L[i]}` evaluated to `la`
+      cases k with
+      | zero => rw [evalE_zero] at hv; cases hv
+      | succ k =>
+        rw [evalE] at hv
+        cases hargs : evalArgs c k env [e] with
+        | none => rw [hargs] at hv; simp at hv
+        | some vs =>
+          cases k with
+          | zero => rw [evalArgs_zero] at hargs; cases hargs
+          | succ k =>
+            obtain ⟨v, vs', h1, h2, rfl⟩ := evalArgs_cons c k env _ _ vs hargs
+            have hlen := evalArgs_length c env [] k vs' h2
+            have : vs' = [] := List.eq_nil_of_length_eq_zero (by simpa using hlen)
+            subst this
+            obtain ⟨l, s, hl, hidx, rfl⟩ := evalE_elemRef c env e L i href k v h1
+            rw [hargs] at hv
+            simp only [Option.bind_some, List.mapM_cons, List.mapM_nil, Option.pure_def, Option.bind_eq_bind,
+              Option.map_some, Option.some.injEq, Val.strs.injEq] at hv
+            subst hv
+            refine ⟨l, hl, ?_⟩
+            simp only [Bool.false_eq_true, ↓reduceIte]
+            intro s' hs'
+            rw [hidx] at hs'
+            simp only [Option.some.injEq] at hs'
+            subst hs'
+            exact hcl s (by simp)
+    · exact FactsHold.nil env
+  · split
+    · rename_i L k0 href
+      exact hgen L k0 href
+    · exact FactsHold.nil env
+
+theorem lenBound_sound (op : String) (len n : Int) (pol : Bool) (k : Int) (hb : lenBound op n pol = some k)
+    (hc : cmpInt op len n = some pol) : len ≤ k := by
+  unfold lenBound at hb
+  unfold cmpInt at hc
+  cases pol with
+  | true =>
+    simp only [↓reduceIte] at hb
+    split at hb
+    · rename_i h; have : op = "<" := by simpa using h
+      subst this; simp only [Option.some.injEq] at hb hc; subst hb
+      have : len < n := by simpa using hc
+      omega
+    · split at hb
+      · rename_i h; have : op = "<=" := by simpa using h
+        subst this; simp only [Option.some.injEq] at hb hc; subst hb
+        have : len ≤ n := by simpa using hc
+        omega
+      · split at hb
+        · rename_i h; have : op = "==" := by simpa using h
+          subst this; simp only [Option.some.injEq] at hb hc; subst hb
+          have : len = n := by simpa using hc
+          omega
+        · cases hb
+  | false =>
+    simp only [Bool.false_eq_true, ↓reduceIte] at hb
+    split at hb
+    · rename_i h; have : op = ">" := by simpa using h
+      subst this; simp only [Option.some.injEq] at hb hc; subst hb
+      have : ¬ len > n := by simpa using hc
+      omega
+    · split at hb
+      · rename_i h; have : op = ">=" := by simpa using h
+        subst this; simp only [Option.some.injEq] at hb hc; subst hb
+        have : ¬ len ≥ n := by simpa using hc
+        omega
+      · split at hb
+        · rename_i h; have : op = "!=" := by simpa using h
+          subst this; simp only [Option.some.injEq] at hb hc; subst hb
+          have : len = n := by simpa using hc
+          omega
+        · cases hb
+
+theorem isListAV_sem {A : ACtx} {tv : Targets} {a : AV} {v : Val} (hl : isListAV a = true) (h : AVsem A tv a v) :
+    ∃ l, v = .strs l := by
+  cases a with
+  | covL t => obtain ⟨l, hl, _⟩ := h; exact ⟨l, hl⟩
+  | cleanL => obtain ⟨l, hl, _⟩ := h; exact ⟨l, hl⟩
+  | _ => simp [isListAV] at hl
+
+theorem lenFacts_sound (A : ACtx) (c : Ctx) (tv : Targets) (ρ : AEnv) (env : Env) (hR : Rel A tv ρ env)
+    (op : String) (a b : Expr) (pol : Bool) (k : Nat) (hand : (op == "&&") = false) (hor : (op == "||") = false)
+    (h : evalE c (k + 1) env (.bin op a b) = some (.bool pol)) : FactsHold env (lenFacts ρ op a b pol) := by
+  unfold lenFacts
+  split
+  · rename_i f L n
+    split
+    · rename_i hf
+      simp only [Bool.and_eq_true, beq_iff_eq] at hf
+      obtain ⟨rfl, hlist⟩ := hf
+      split
+      · rename_i kb hkb
+        rw [evalE] at h
+        simp only [hand, hor, Bool.false_eq_true, ↓reduceIte] at h
+        cases k with
+        | zero => simp [evalE_zero] at h
+        | succ k =>
+        have hb := fun v (hv : evalE c (k + 1) env (.int n) = some v) => evalE_int c (k + 1) env n v hv
+        cases ha : evalE c (k + 1) env (.call "len" [.var L]) with
+        | none => rw [ha] at h; simp at h
+        | some va =>
+          cases hbv : evalE c (k + 1) env (.int n) with
+          | none => rw [ha, hbv] at h; simp at h
+          | some vb =>
+            have := hb vb hbv
+            subst this
+            rw [ha, hbv] at h
+            -- the value of `len(L)`
+            rw [evalE] at ha
+            cases hargs : evalArgs c k env [.var L] with
+            | none => rw [hargs] at ha; simp at ha
+            | some vs =>
+              obtain ⟨v, hget, rfl⟩ := evalArgs_var1 c env L k vs hargs
+              obtain ⟨l, rfl⟩ := isListAV_sem hlist (hR L v hget)
+              rw [hargs] at ha
+              have hne : (("len" : String) == "multiSplit") = false := by decide
+              simp only [hne, Bool.false_eq_true, ↓reduceIte, Option.some.injEq] at ha
+              subst ha
+              simp only [Option.map_eq_some_iff, Val.bool.injEq] at h
+              obtain ⟨bb, hcmp, rfl⟩ := h
+              have hle := lenBound_sound op _ n bb kb hkb hcmp
+              intro f hf
+              simp only [List.mem_singleton] at hf
+              subst hf
+              refine ⟨l, hget, ?_⟩
+              simp only [↓reduceIte]
+              intro j s hj hs
+              have hlt : j < l.length := by
+                have := List.getElem?_eq_some_iff.mp hs
+                exact this.1
+              have : (l.length : Int) ≤ kb := hle
+              omega
+      · exact FactsHold.nil env
+    · exact FactsHold.nil env
+  · exact FactsHold.nil env
+
+/-- **soundness of `facts`**: when `e` evaluates to `pol`, the facts listed for that outcome hold -/
+theorem facts_sound (A : ACtx) (c : Ctx) (hS : SoundCtx A c) (tv : Targets) (ρ : AEnv) (env : Env) (hR : Rel A tv ρ env) :
+    ∀ (k : Nat) (e : Expr) (pol : Bool), CallsOK A c (k - 1) → evalE c k env e = some (.bool pol) →
+      FactsHold env (facts A ρ pol e) := by
+  intro k
+  induction k with
+  | zero => intro e pol _ h; rw [evalE_zero] at h; cases h
+  | succ k ih =>
+  intro e pol hC h
+  have hC0 : CallsOK A c k := hC
+  have hC' : CallsOK A c (k - 1) := hC0.mono (by omega)
+  cases e with
+  | not e' =>
+    simp only [facts]
+    rw [evalE] at h
+    split at h
+    · rename_i b hb
+      simp only [Option.some.injEq, Val.bool.injEq] at h
+      subst h
+      have := ih e' b hC' hb
+      simpa using this
+    · cases h
+  | bin op a b =>
+    simp only [facts]
+    by_cases hand : (op == "&&") = true
+    · have : op = "&&" := by simpa using hand
+      subst this
+      simp only [beq_self_eq_true, ↓reduceIte]
+      rw [evalE] at h
+      simp only [beq_self_eq_true, ↓reduceIte] at h
+      split at h
+      · -- a false
+        rename_i ha
+        simp only [Option.some.injEq, Val.bool.injEq] at h
+        subst h
+        simp only [Bool.false_eq_true, ↓reduceIte]
+        exact inter_sound (Or.inl (ih a false hC' ha))
+      · rename_i ha
+        cases pol with
+        | true =>
+          simp only [↓reduceIte]
+          exact (ih a true hC' ha).append (ih b true hC' h)
+        | false =>
+          simp only [Bool.false_eq_true, ↓reduceIte]
+          exact inter_sound (Or.inr (ih b false hC' h))
+      · cases h
+    · have hand' : (op == "&&") = false := by simpa using hand
+      simp only [hand', Bool.false_eq_true, ↓reduceIte]
+      by_cases hor : (op == "||") = true
+      · have : op = "||" := by simpa using hor
+        subst this
+        simp only [beq_self_eq_true, ↓reduceIte]
+        rw [evalE] at h
+        simp only [hand', Bool.false_eq_true, ↓reduceIte, beq_self_eq_true] at h
+        split at h
+        · rename_i ha
+          simp only [Option.some.injEq, Val.bool.injEq] at h
+          subst h
+          simp only [↓reduceIte]
+          exact inter_sound (Or.inl (ih a true hC' ha))
+        · rename_i ha
+          cases pol with
+          | true =>
+            simp only [↓reduceIte]
+            exact inter_sound (Or.inr (ih b true hC' h))
+          | false =>
+            simp only [Bool.false_eq_true, ↓reduceIte]
+            exact (ih a false hC' ha).append (ih b false hC' h)
+        · cases h
+      · have hor' : (op == "||") = false := by simpa using hor
+        simp only [hor', Bool.false_eq_true, ↓reduceIte]
+        exact lenFacts_sound A c tv ρ env hR op a b pol k hand' hor' h
+  | handler f a =>
+    cases pol with
+    | false => simp only [facts]; exact FactsHold.nil env
+    | true =>
+      simp only [facts]
+      split
+      · rename_i hf
+        split
+        · rename_i L i href
+          rw [evalE] at h
+          split at h
+          · rename_i s hs
+            obtain ⟨l, s', hl, hidx, hv⟩ := evalE_elemRef c env a L i href k _ hs
+            cases hv
+            cases hcall : callFn c k f s with
+            | none => rw [hcall] at h; simp at h
+            | some bb =>
+              rw [hcall] at h
+              simp only [Option.map_some, Option.some.injEq, Val.bool.injEq] at h
+              subst h
+              have hcl := hC0 f (List.contains_iff_mem.mp hf) k (Nat.le_refl _) s hcall
+              intro g hg
+              simp only [List.mem_singleton] at hg
+              subst hg
+              refine ⟨l, hl, ?_⟩
+              simp only [Bool.false_eq_true, ↓reduceIte]
+              intro s2 hs2
+              rw [hidx] at hs2
+              simp only [Option.some.injEq] at hs2
+              subst hs2
+              exact hcl
+          · cases h
+        · exact FactsHold.nil env
+      · exact FactsHold.nil env
+  | reMatch r a =>
+    cases pol with
+    | false => simp only [facts]; exact FactsHold.nil env
+    | true =>
+      simp only [facts]
+      split
+      · rename_i hr
+        split
+        · rename_i L i href
+          rw [evalE] at h
+          split at h
+          · rename_i s re hs hre
+            obtain ⟨l, s', hl, hidx, hv⟩ := evalE_elemRef c env a L i href k _ hs
+            cases hv
+            simp only [Option.some.injEq, Val.bool.injEq] at h
+            have hcl := hS.res r (List.contains_iff_mem.mp hr) re hre s h
+            intro g hg
+            simp only [List.mem_singleton] at hg
+            subst hg
+            refine ⟨l, hl, ?_⟩
+            simp only [Bool.false_eq_true, ↓reduceIte]
+            intro s2 hs2
+            rw [hidx] at hs2
+            simp only [Option.some.injEq] at hs2
+            subst hs2
+            exact hcl
+          · cases h
+        · exact FactsHold.nil env
+      · exact FactsHold.nil env
+  | call f args =>
+    cases pol with
+    | false => simp only [facts]; exact FactsHold.nil env
+    | true =>
+      match args with
+      | [] => simp only [facts]; exact FactsHold.nil env
+      | [_] => simp only [facts]; exact FactsHold.nil env
+      | _ :: _ :: _ :: _ => simp only [facts]; exact FactsHold.nil env
+      | [a, b] =>
+        simp only [facts]
+        rw [evalE] at h
+        cases hargs : evalArgs c k env [a, b] with
+        | none => rw [hargs] at h; simp at h
+        | some vs =>
+          obtain ⟨va, vb, j, rfl, h1, h2, rfl⟩ := evalArgs_two c env a b k vs hargs
+          rw [hargs] at h
+          have sb := aeval_sound A c hS.lower tv ρ env hR b _ vb h2
+          split
+          · rename_i hf
+            have hf' : f = "in" := by simpa using hf
+            subst hf'
+            split
+            · rename_i hb
+              have hb' : aeval A ρ b = .cleanL := by simpa using hb
+              rw [hb'] at sb
+              obtain ⟨lb, rfl, hcl⟩ := sb
+              cases va with
+              | strs la =>
+                simp at h
+                exact listArgFacts_sound c env a _ la h1 (cleanL_of_inList la lb h hcl)
+              | _ => simp at h
+            · exact FactsHold.nil env
+          · split
+            · rename_i hf
+              have hf' : f = "recursiveCheck" := by simpa using hf
+              subst hf'
+              split
+              · rename_i hb
+                have hb' : aeval A ρ b = .funcs := by simpa using hb
+                rw [hb'] at sb
+                obtain ⟨fs, rfl, hfs⟩ := sb
+                cases va with
+                | strs vals =>
+                  simp at h
+                  apply listArgFacts_sound c env a _ vals h1
+                  apply cleanL_of_recursiveCheck _ _ vals h
+                  intro g hg x hx
+                  obtain ⟨fn, hfn, rfl⟩ := List.mem_map.mp hg
+                  simp only [beq_iff_eq] at hx
+                  exact hC0 fn (hfs fn hfn) (j + 2) (Nat.le_refl _) x hx
+                | _ => simp at h
+              · exact FactsHold.nil env
+            · exact FactsHold.nil env
+  | _ => cases pol <;> simp only [facts] <;> exact FactsHold.nil env
+
 /-- what the analysis promises of a run of a statement list -/
 def ExecOK (tv : Targets) (inLoop endsBody : Bool) (ctl : Ctl) : Prop :=
   (ctl = .ret (.bool true) → Clean tv.param) ∧
@@ -1002,15 +1623,15 @@ def ExecOK (tv : Targets) (inLoop endsBody : Bool) (ctl : Ctl) : Prop :=
 
 /-- **soundness of `acheck`**, for statement lists and for loops, by induction on the interpreter's fuel -/
 theorem exec_sound (A : ACtx) (c : Ctx) (hS : SoundCtx A c) : ∀ (k : Nat), CallsOK A c (k - 1) →
-    (∀ (af : Nat) (stmts : List Stmt) (env : Env) (ρ : AEnv) (est estX inLoop endsBody : Bool) (tv : Targets)
+    (∀ (af : Nat) (stmts : List Stmt) (env : Env) (ρ : AEnv) (Φ : Facts) (est estX inLoop endsBody : Bool) (tv : Targets)
         (env' : Env) (ctl : Ctl),
-      acheck A af est estX inLoop endsBody ρ stmts = true → Rel A tv ρ env →
+      acheck A af est estX inLoop endsBody ρ Φ stmts = true → Rel A tv ρ env → FactsHold env Φ →
       (est = true → Clean tv.param) → (estX = true → Clean tv.elem) →
       exec c k env stmts = some (env', ctl) → ExecOK tv inLoop endsBody ctl) ∧
     (∀ (af F : Nat) (body : List Stmt) (ns : List String) (v : String) (l : List Bytes) (env : Env) (ρ : AEnv) (est : Bool)
         (p x0 : Bytes) (env' : Env) (ctl : Ctl),
       assignedIn F body = some ns →
-      acheck A af est false true true ((dropElem (havoc ρ (v :: ns))).set v (.covS .elem)) body = true →
+      acheck A af est false true true ((dropElem (havoc ρ (v :: ns))).set v (.covS .elem)) [] body = true →
       RelOut A ⟨p, x0⟩ ρ (v :: ns) env → (est = true → Clean p) →
       loop c k env v l body = some (env', ctl) →
         (ctl = .ret (.bool true) → Clean p) ∧ (ctl = .next → CleanL l) ∧ ctl ≠ .brk ∧ ctl ≠ .cont) := by
@@ -1019,14 +1640,14 @@ theorem exec_sound (A : ACtx) (c : Ctx) (hS : SoundCtx A c) : ∀ (k : Nat), Cal
   | zero =>
     intro _
     constructor
-    · intro af stmts env ρ est estX inLoop endsBody tv env' ctl _ _ _ _ h; rw [exec_zero] at h; cases h
+    · intro af stmts env ρ Φ est estX inLoop endsBody tv env' ctl _ _ _ _ _ h; rw [exec_zero] at h; cases h
     · intro af F body ns v l env ρ est p x0 env' ctl _ _ _ _ h; rw [loop_zero] at h; cases h
   | succ k ih =>
     intro hC
     have hCk : CallsOK A c (k - 1) := hC.mono (by omega)
     obtain ⟨ihE, ihL⟩ := ih hCk
     constructor
-    · intro af stmts env ρ est estX inLoop endsBody tv env' ctl hac hR hest hestX h
+    · intro af stmts env ρ Φ est estX inLoop endsBody tv env' ctl hac hR hΦ hest hestX h
       cases af with
       | zero => simp [acheck] at hac
       | succ af =>
@@ -1038,9 +1659,10 @@ theorem exec_sound (A : ACtx) (c : Ctx) (hS : SoundCtx A c) : ∀ (k : Nat), Cal
         simp only [acheck, Bool.or_eq_true, Bool.not_eq_true'] at hac
         refine ⟨(fun hc => by cases hc), (fun _ hc => by cases hc), ?_, (fun hh => by cases hh)⟩
         intro hin _
-        rcases hac with hac | hac
+        rcases hac with (hac | hac) | hac
         · rw [hin] at hac; cases hac
         · exact hestX hac
+        · exact covered_sound hΦ hR .elem hac
       | cons s rest =>
         rw [exec.eq_def] at h
         simp only at h
@@ -1051,7 +1673,7 @@ theorem exec_sound (A : ACtx) (c : Ctx) (hS : SoundCtx A c) : ∀ (k : Nat), Cal
           split at h
           · rename_i v hv
             have hsem := aeval_sound A c hS.lower tv ρ env hR e k v hv
-            exact ihE af rest _ _ est estX inLoop endsBody tv env' ctl hac (hR.set n _ v hsem) hest hestX h
+            exact ihE af rest _ _ _ est estX inLoop endsBody tv env' ctl hac (hR.set n _ v hsem) (hΦ.set n v) hest hestX h
           · cases h
         | ret e =>
           simp only [acheck, Bool.or_eq_true] at hac
@@ -1066,15 +1688,19 @@ theorem exec_sound (A : ACtx) (c : Ctx) (hS : SoundCtx A c) : ∀ (k : Nat), Cal
             intro hv
             simp only [Ctl.ret.injEq] at hv
             subst hv
-            rcases hac with hac | hac
+            rcases hac with (hac | hac) | hac
             · exact hest hac
             · exact aimp_sound A c hS tv ρ env hR .param k e hCk hac he
+            · exact covered_sound (hΦ.append (facts_sound A c hS tv ρ env hR k e true hCk he)) hR .param hac
         | brk => simp [acheck] at hac
         | cont =>
-          simp only [acheck, Bool.and_eq_true] at hac
+          simp only [acheck, Bool.and_eq_true, Bool.or_eq_true] at hac
           simp only [Option.some.injEq, Prod.mk.injEq] at h
           rw [← h.2]
-          exact ⟨(fun hc => by cases hc), (fun _ _ => hestX hac.2), (fun _ hc => by cases hc), (fun hh => by cases hh)⟩
+          refine ⟨(fun hc => by cases hc), (fun _ _ => ?_), (fun _ hc => by cases hc), (fun hh => by cases hh)⟩
+          rcases hac.2 with hx | hx
+          · exact hestX hx
+          · exact covered_sound hΦ hR .elem hx
         | ifS cnd thn els =>
           simp only [acheck, Bool.and_eq_true] at hac
           obtain ⟨⟨hthn, hels⟩, hrest⟩ := hac
@@ -1088,7 +1714,8 @@ theorem exec_sound (A : ACtx) (c : Ctx) (hS : SoundCtx A c) : ∀ (k : Nat), Cal
               cases b with
               | true =>
                 simp only [↓reduceIte] at hbr
-                refine ihE af thn env ρ _ _ inLoop false tv env1 ctl1 hthn hR ?_ ?_ hbr
+                refine ihE af thn env ρ _ _ _ inLoop false tv env1 ctl1 hthn hR
+                  (hΦ.append (facts_sound A c hS tv ρ env hR k cnd true hCk hb)) ?_ ?_ hbr
                 · intro he
                   simp only [Bool.or_eq_true] at he
                   rcases he with he | he
@@ -1101,7 +1728,8 @@ theorem exec_sound (A : ACtx) (c : Ctx) (hS : SoundCtx A c) : ∀ (k : Nat), Cal
                   · exact aimp_sound A c hS tv ρ env hR .elem k cnd hCk he hb
               | false =>
                 simp only [Bool.false_eq_true, ↓reduceIte] at hbr
-                exact ihE af els env ρ est estX inLoop false tv env1 ctl1 hels hR hest hestX hbr
+                exact ihE af els env ρ _ est estX inLoop false tv env1 ctl1 hels hR
+                  (hΦ.append (facts_sound A c hS tv ρ env hR k cnd false hCk hb)) hest hestX hbr
             split at h
             · rename_i env1 hbr
               -- the branch fell through: the rest runs
@@ -1122,7 +1750,8 @@ theorem exec_sound (A : ACtx) (c : Ctx) (hS : SoundCtx A c) : ∀ (k : Nat), Cal
                     | zero => rw [exec_zero] at hbr; cases hbr
                     | succ k' => rw [exec_nil] at hbr; simp only [Option.some.injEq, Prod.mk.injEq] at hbr; exact hbr.1.symm
                   subst henv
-                  refine ihE af rest env1 ρ _ _ inLoop endsBody tv env' ctl hrest hR ?_ ?_ h
+                  refine ihE af rest env1 ρ _ _ _ inLoop endsBody tv env' ctl hrest hR
+                    (hΦ.append (facts_sound A c hS tv ρ env1 hR k cnd false hCk hb)) ?_ ?_ h
                   · intro he
                     simp only [Bool.or_eq_true] at he
                     rcases he with he | he
@@ -1160,7 +1789,8 @@ theorem exec_sound (A : ACtx) (c : Ctx) (hS : SoundCtx A c) : ∀ (k : Nat), Cal
                             exact aimp_sound A c hS tv ρ env1 hR .elem k' c' (hCk.mono (by omega)) he hbb
                           · cases hb
                       | _ => simp at he
-              · exact ihE af rest env1 forget est estX inLoop endsBody tv env' ctl hrest (Rel.forget A tv env1) hest hestX h
+              · exact ihE af rest env1 forget [] est estX inLoop endsBody tv env' ctl hrest (Rel.forget A tv env1)
+                  (FactsHold.nil env1) hest hestX h
             · -- the branch did not fall through: its result is the result
               rename_i hno
               obtain ⟨b1, b2, _, b4⟩ := hbranch env' ctl h
@@ -1192,8 +1822,8 @@ theorem exec_sound (A : ACtx) (c : Ctx) (hS : SoundCtx A c) : ∀ (k : Nat), Cal
                 split at h
                 · rename_i env1 hlp
                   have hcl := (hloop env1 .next hlp).2.1 rfl
-                  have := ihE af rest env1 forget true false false false tv env' ctl hrest (Rel.forget A tv env1)
-                    (fun _ => hcovl hcl) (fun hh => by cases hh) h
+                  have := ihE af rest env1 forget [] true false false false tv env' ctl hrest (Rel.forget A tv env1)
+                    (FactsHold.nil env1) (fun _ => hcovl hcl) (fun hh => by cases hh) h
                   exact ⟨this.1, (fun hh => by cases hh), (fun hh => by cases hh), this.2.2.2⟩
                 · rename_i hno
                   obtain ⟨h1, _, h3, h4⟩ := hloop env' ctl h
@@ -1213,7 +1843,8 @@ theorem exec_sound (A : ACtx) (c : Ctx) (hS : SoundCtx A c) : ∀ (k : Nat), Cal
         have hRb : Rel A ⟨p, x⟩ ((dropElem (havoc ρ (v :: ns))).set v (.covS .elem)) (env.set v (.str x)) :=
           (hRO.rel x).set v _ _ ⟨x, rfl, fun hc => hc⟩
         have hiter : ∀ env1 ctl1, exec c k (env.set v (.str x)) body = some (env1, ctl1) → ExecOK ⟨p, x⟩ true true ctl1 :=
-          fun env1 ctl1 hb => ihE af body _ _ est false true true ⟨p, x⟩ env1 ctl1 hbody hRb hest (fun hh => by cases hh) hb
+          fun env1 ctl1 hb => ihE af body _ _ [] est false true true ⟨p, x⟩ env1 ctl1 hbody hRb (FactsHold.nil _) hest
+            (fun hh => by cases hh) hb
         have hframe : ∀ env1 ctl1, exec c k (env.set v (.str x)) body = some (env1, ctl1) →
             RelOut A ⟨p, x0⟩ ρ (v :: ns) env1 := by
           intro env1 ctl1 hb
@@ -1262,7 +1893,7 @@ theorem exec_sound (A : ACtx) (c : Ctx) (hS : SoundCtx A c) : ∀ (k : Nat), Cal
 def ACtx.bodiesOK (A : ACtx) (c : Ctx) (ρg : AEnv) (af : Nat) : Bool :=
   A.closedFns.all fun f =>
     match c.func? f with
-    | some fn => acheck A af false false false false (ρg.set fn.param (.covS .param)) fn.body
+    | some fn => acheck A af false false false false (ρg.set fn.param (.covS .param)) [] fn.body
     | none => false
 
 theorem callFn_zero (c : Ctx) (f : String) (s : Bytes) : callFn c 0 f s = none := by rw [callFn]
@@ -1311,8 +1942,8 @@ theorem handlers_sound (A : ACtx) (c : Ctx) (hS : SoundCtx A c) (ρg : AEnv)
               simp only [hp1, Bool.false_eq_true, ↓reduceIte] at hn
               simp only [hp2, Bool.false_eq_true, ↓reduceIte]
               exact hg _ n val hn
-          have := (exec_sound A c hS k (ih.mono (by omega))).1 af fn.body _ _ false false false false ⟨s, []⟩ env' _ hfn hR
-            (fun hh => by cases hh) (fun hh => by cases hh) hex
+          have := (exec_sound A c hS k (ih.mono (by omega))).1 af fn.body _ _ [] false false false false ⟨s, []⟩ env' _ hfn hR
+            (FactsHold.nil _) (fun hh => by cases hh) (fun hh => by cases hh) hex
           exact this.1 rfl
         · cases h
 
